@@ -31,7 +31,7 @@ type c07Case struct {
 	Kind  string    `json:"value_kind"` // int | struct | str2str
 	Loads []c07Load `json:"loads"`
 	Fresh bool      `json:"never_loaded,omitempty"`
-	Ctor  string    `json:"constructed,omitempty"` // "" New()/NewStr2Str() | "zero" the zero value (not initialised) | "ctor" the first load goes through New*FromSlice / New*FromMap
+	Ctor  string    `json:"constructed,omitempty"`     // "" New()/NewStr2Str() | "zero" the zero value (not initialised) | "ctor" the first load goes through New*FromSlice / New*FromMap
 	Real  bool      `json:"real_hash,omitempty"`       // the repository's real (seeded) hash instead of the harness-owned one
 	All   bool      `json:"probe_all_slots,omitempty"` // absent probes hashed to every slot (thorough) or to {0,1,last}
 	// formula part
